@@ -464,7 +464,9 @@ def _run_generated(name, src, args_list):
             continue
         judged += 1
         try:
-            got = ns["f"](*args)
+            got = _with_alarm(lambda: ns["f"](*args), 20)
+        except _Timeout:
+            got = "no result after 20 s (CPython returned at once)"
         except Exception as e:
             got = "raised %r" % (e,)
         if got != want:
